@@ -29,24 +29,21 @@ BuildStep(r) ==
 
 \* --- the written bytes, binary
 CodesOf(x) == [p \in 1..Len(x) |-> [q \in 1..Len(x[p]) |-> x[p][q].code]]
+\* The written bytes are judged as a reader of the format finds them: well formed (valid type
+\* bytes, counts, element indexes, one entry per UUID) and holding exactly the graph - root first,
+\* every reachable element once, each with its type, name and attributes in order, references by
+\* index resolving to the right element.  In which order the writer lists the other elements and
+\* what else it puts into the string table is its own choice.
 BinVerdict(r, g) ==
     LET f == r.file
-        e == BinFile(g, r.enc.ver)
     IN IF f.err # "" THEN Bad("bin.walk", f.err)
-       ELSE IF f.elems # e.elems THEN Bad("bin.order", e.elems)
-       ELSE IF CodesOf(f.attrs) # CodesOf(e.attrs) THEN Bad("bin.code", CodesOf(e.attrs))
-       ELSE IF f.attrs # e.attrs THEN Bad("bin.attrs", e.attrs)
-       ELSE IF SeqSet(f.strings) # e.strings \/ Len(f.strings) # Cardinality(e.strings)
-            THEN Bad("bin.strings", e.strings)
        ELSE IF ~BinFileOK(f) THEN Bad("bin.wellformed", 0)
+       ELSE IF ParseBin(f) # Restrict(g) THEN Bad("bin.graph", Restrict(g))
        ELSE Good
-\* --- the written text
-KvVerdict(r, g) ==
-    LET f == r.file IN
-    IF f.err # "" THEN Bad("kv2.scan", f.err)
-    ELSE IF f.top # Kv2Top(g, r.enc.flat) THEN Bad("kv2.top", Kv2Top(g, r.enc.flat))
-    ELSE IF f.nid # Cardinality(Keep(r.enc, g)) THEN Bad("kv2.ids", Cardinality(Keep(r.enc, g)))
-    ELSE Good
+\* --- the written text: which elements stand at top level, how many carry an "id" line and how the
+\* text is laid out are the writer's choices; the text is judged by the graph the parser recovers
+\* (RtStep) and by its stability under re-export
+KvVerdict(r, g) == Good
 
 RtStep(r) ==
     LET g == r.g
@@ -59,16 +56,15 @@ RtStep(r) ==
             IF ~fv.ok THEN fv
             ELSE IF r.parse # "ok" THEN Bad("rt.parse", "ok")
             ELSE IF enc.kind = "bin" /\ r.out # ParseBin(r.file) THEN Bad("bin.parse", ParseBin(r.file))
-            ELSE IF Iso(g, r.out, Keep(enc, g)) THEN Good
+            ELSE IF Iso(g, r.out, Keep(enc, g)) THEN (IF r.restable THEN Good ELSE Bad("rt.restable", TRUE))
             ELSE IF IsoGen(g, r.out, Keep(enc, g), TRUE) THEN Bad("rt.iso.stub", StubsOf(g))
             ELSE Bad("rt.iso", Restrict(g))
 
 \* --- KeyValues1 bridge
+\* the property fixes the round trip only; how from_kv1 arranges the tree as elements (inline
+\* attributes or a subkeys array) is its own choice, of which DmxGraphOps!FromKv1 is one that works
 Kv1Step(r) ==
-    LET e == FromKv1(r.t, r.fold) IN
     IF r.exc # "" THEN Bad("kv1.raised", r.exc)
-    ELSE IF r.elem # e THEN Bad("kv1.from", e)
-    ELSE IF r.back # ToKv1(r.elem) THEN Bad("kv1.to", ToKv1(r.elem))
     ELSE IF r.back # r.t THEN Bad("kv1.roundtrip", r.t)
     ELSE Good
 
